@@ -38,18 +38,27 @@ def run_case(data):
             break
         usable = sorted(s for s in m.streams if s not in w.tainted)
         op = ch.weighted([(5, 'open'), (3, 'respond'), (2, 'data'), (2, 'end'), (2, 'rst'), (2, 'push'),
-                          (8, 'advertise'), (8, 'recv-altsvc'), (1, 'cleanup'), (2, 'trailers')])
+                          (8, 'advertise'), (8, 'recv-altsvc'), (1, 'cleanup'), (2, 'trailers'), (2, 'bad-trailers')])
         if op == 'open':
             if client:
                 sid = w.next_local_id()
                 hdrs = req_for(sid)
+                if ch.chance(80):
+                    # the request as the application may write it: the library normalises names and values before
+                    # it sends them, and remembers the :authority it actually sent
+                    host = 'host%d.example' % sid
+                    hdrs[2] = ch.pick([(':Authority', host), (b' :authority ', host.encode() + b' '),
+                                       (':authority', '\t' + host), (b':AUTHORITY', host.encode())])
+                    if ch.bool():
+                        hdrs.insert(0, hdrs.pop(2))        # pseudo-header order is free
+                    r.labels.add('dressed-authority')
                 verdict, what = m.send_headers_verdict(sid, 'final', False)
                 es = ch.chance(64)
                 o = w.s.call('send_headers', sid, hdrs, end_stream=es)
                 res = w.finish_local('headers:final', sid, verdict, what, o,
                                      lambda: m.apply_send_headers(sid, what, es))
                 if res == 'ok':
-                    authority[sid] = hdrs[2][1]
+                    authority[sid] = b'host%d.example' % sid
             else:
                 sid = w.next_peer_id()
                 res, o = w.recv_headers(sid, 'final', ch.chance(64), hdrs=req_for(sid))
@@ -81,6 +90,12 @@ def run_case(data):
             if cands:
                 w.send_headers(ch.pick(cands), 'trailers', True)
                 r.labels.add('sent-trailers')
+        elif op == 'bad-trailers':
+            # a trailers block refused for lack of END_STREAM: the call never happened
+            cands = [s for s in usable if m.get(s).can_send() and m.headers_position(m.get(s)) == 'trailers']
+            if cands:
+                w.send_headers(ch.pick(cands), 'trailers', False)
+                r.labels.add('refused-trailers')
         elif op == 'rst':
             cands = [s for s in usable if m.get(s).live()]
             if cands:
